@@ -181,7 +181,10 @@ pub fn run_point(tape: &mut Tape, pt: &Point, detail: bool) -> MatReport {
                 LKind::Sharded => format!("{}/{}", path, shard_dir_name(if tape.draw(2) == 0 { a } else { b })),
             };
             fs.mkdir_all(&phys);
-            let mtime = fs.now - 7_200_000_000_000 - (i as i64) * 1_000_000_000;
+            // read-only levels may hold entries stamped by a host whose clock
+            // runs ahead (mtime in the reader's future)
+            let future = is_reader && tape.draw(4) == 3;
+            let mtime = if future { fs.now + *tape.pick(&[600_000_000_000i64, 3_600_000_000_000]) } else { fs.now - 7_200_000_000_000 - (i as i64) * 1_000_000_000 };
             let marked = tape.draw(2) == 1;
             fs.plant_file(&format!("{}/{}", phys, cname), &make_value(&cname, c as u32, sw.plen[c as usize]), 0o444, if marked { mtime } else { mtime - 120_000_000_000 }, mtime);
             // a sibling entry that must never change
@@ -205,6 +208,7 @@ pub fn run_point(tape: &mut Tape, pt: &Point, detail: bool) -> MatReport {
         let _ = w.op(1, 1, &ro, 0, &key, &Op::Touch);
     }
     let before_op: Vec<_> = dirs.iter().map(|d| snapshot(&w, &d.path)).collect();
+    let start_now = w.with_fs(|fs| fs.now);
 
     // ------------------------------------------------------------ run
     let (ptag, perr) = match pt.pop {
@@ -478,8 +482,12 @@ pub fn run_point(tape: &mut Tape, pt: &Point, detail: bool) -> MatReport {
                         fail("c15", "readonly-tree", format!("read-only entry changed: {} {:?} -> {:?}", x.0, x.1, y.1));
                     } else if y.1.atime != x.1.atime {
                         // only an entry that was found may have its atime advanced
+                        // (an entry stamped in the reader's future gets its atime
+                        // set to "now" by touch or by the kernel's relatime, which
+                        // is smaller: only the direction of past stamps is judged)
                         let is_key = x.0.ends_with(&format!("/{}", cname)) || x.1.is_dir;
-                        if !is_key || y.1.atime < x.1.atime {
+                        let future_stamped = x.1.atime > start_now || x.1.mtime > start_now;
+                        if !is_key || (y.1.atime < x.1.atime && !future_stamped) {
                             fail("c15", "readonly-atime", format!("atime of {} changed {} -> {}", x.0, x.1.atime, y.1.atime));
                         }
                     }
@@ -494,7 +502,10 @@ pub fn run_point(tape: &mut Tape, pt: &Point, detail: bool) -> MatReport {
             let a = key_file(&after[i]);
             if let (Some(b0), Some(a0)) = (b.first(), a.first()) {
                 if Some(i) == first {
-                    if a0.1.atime < a0.1.mtime || a0.1.mtime != b0.1.mtime {
+                    // (a copy stamped in the future cannot be marked by setting
+                    // atime to now; clock skew is outside the statement)
+                    let future_stamped = b0.1.mtime > start_now;
+                    if (a0.1.atime < a0.1.mtime && !future_stamped) || a0.1.mtime != b0.1.mtime {
                         fail("c13", "touch-mark", format!("touch did not mark the first copy {}: {:?}", a0.0, a0.1));
                     }
                 } else if a0.1.atime != b0.1.atime || a0.1.mtime != b0.1.mtime {
